@@ -17,9 +17,11 @@ BG = bgq.BG
 
 
 def r15_waker_call(text):
-    """waker_tracker.handle_waiting_wakers(|| inner.queue.capacity(), || __s.flush_stream(), A, B[,]);
-       -> verif_handle_waiting_wakers(&mut waker_tracker, &inner, &mut __s, A, B);   (A, B taken verbatim)"""
-    head = "waker_tracker . handle_waiting_wakers ( || inner . queue . capacity ( ) , || __s . flush_stream ( ) ,".split()
+    """waker_tracker.handle_waiting_wakers(|| CAPACITY_EXPR, || __s.flush_stream(), A, B[,]);
+       -> verif_handle_waiting_wakers(&mut waker_tracker, &mut __s, A, B);   (A, B taken verbatim; the capacity callback may be any
+       closure without parameters - its value is arbitrary in the stand-in's contract)"""
+    head = "waker_tracker . handle_waiting_wakers ( ||".split()
+    tail = ", || __s . flush_stream ( ) ,".split()
     hits = 0
     while True:
         toks, match = _toks(text)
@@ -27,10 +29,21 @@ def r15_waker_call(text):
             if [x.text for x in toks[i:i + len(head)]] == head:
                 open_i = i + 3
                 close_i = match[open_i]
+                # skip the first closure's expression up to the `, || __s.flush_stream(),` that must follow at depth 0
+                j = i + len(head)
+                depth = 0
+                while j < close_i and not (depth == 0 and [x.text for x in toks[j:j + len(tail)]] == tail):
+                    if toks[j].text in ("(", "[", "{"):
+                        depth += 1
+                    elif toks[j].text in (")", "]", "}"):
+                        depth -= 1
+                    j += 1
+                if j >= close_i:
+                    continue
                 if toks[close_i + 1].text != ";":
                     raise Undecided("R15: call is not a statement")
-                rest = text[toks[i + len(head) - 1].end:toks[close_i].start].strip().rstrip(",").strip()
-                text = text[:toks[i].start] + "verif_handle_waiting_wakers(&mut waker_tracker, &inner, &mut __s, %s);" % rest + text[toks[close_i + 1].end:]
+                rest = text[toks[j + len(tail) - 1].end:toks[close_i].start].strip().rstrip(",").strip()
+                text = text[:toks[i].start] + "verif_handle_waiting_wakers(&mut waker_tracker, &mut __s, %s);" % rest + text[toks[close_i + 1].end:]
                 hits += 1
                 break
         else:
@@ -101,6 +114,8 @@ impl core::ops::AddAssign<Duration> for Duration {
 }
 // "no appenders left": any answer is possible
 pub assume_specification<T: ?Sized, A: core::alloc::Allocator>[ Arc::<T, A>::get_mut ](a: &mut Arc<T, A>) -> (r: Option<&mut T>);
+// any answer (reference counts are not modelled)
+pub assume_specification<T: ?Sized, A: core::alloc::Allocator>[ Arc::<T, A>::strong_count ](a: &Arc<T, A>) -> (r: usize);
 
 pub assume_specification<T, E>[ core::result::Result::<T, E>::unwrap_or ](r: core::result::Result<T, E>, d: T) -> (o: T)
     ensures o == (match r { Ok(v) => v, Err(_) => d });
@@ -159,7 +174,7 @@ impl<S: EntryIoStream, E: Entry> Receiver<S, E> {
 }
 // R15: handle_waiting_wakers(|| inner.queue.capacity(), || recv.flush_stream(), status, n) with its contract from unit `waker`
 #[verifier::external_body]
-fn verif_handle_waiting_wakers<S: EntryIoStream, E: Entry>(wt: &mut WakerTracker, inner: &Arc<Inner<E>>, recv: &mut Receiver<S, E>, status: DrainResult, n: usize)
+fn verif_handle_waiting_wakers<S: EntryIoStream, E: Entry>(wt: &mut WakerTracker, recv: &mut Receiver<S, E>, status: DrainResult, n: usize)
     requires
         // C04 wiring (P1/P2 of the WakerTracker comment): the tracker is told what a drain really returned
         drain_result(status, n),                                                     // OBL wakers_see_a_real_drain_result
